@@ -20,6 +20,10 @@ theorem C15_all_delegate_to_slice :
     deleg_index = .sliceIndex ∧ deleg_indexMut = .sliceIndexMut := by
   decide
 
+/-- … and none of them overrides a provided method (`ne`, `lt`, `max`, `hash_slice`, …): the delegating definitions
+    above are the ONLY definitions of these operators, also when vectors are compared or hashed as elements of a slice -/
+theorem C15_no_second_definition : providedOverrides = 0 := by decide
+
 /-- an operator implemented in a delegating shape, as a function of the two handles -/
 def delegated {β} (shape : Deleg) (sliceOp : List Slot → List Slot → β) (dflt : VSt → VSt → β)
     (a b : VSt) : β :=
@@ -59,5 +63,6 @@ example :
 end MV.Props
 
 #print axioms MV.Props.C15_all_delegate_to_slice
+#print axioms MV.Props.C15_no_second_definition
 #print axioms MV.Props.C15_operator_is_slice_operator
 #print axioms MV.Props.C15_independent_of_storage
